@@ -371,8 +371,10 @@ Proof.
     intro H. injection H as <- _ _. eapply keeps_trans; [|exact ES].
     destruct (data_of s o); [apply keeps_set_data | apply keeps_refl].
   - intro H. injection H as <- _ _. apply keeps_refl.
-  - destruct (data_of s o) as [d|]; intro H; injection H as <- _ _; [|apply keeps_refl].
-    destruct (kv_get d k); [apply keeps_set_data | apply keeps_refl].
+  - destruct (data_of s o) as [d|]; [|intro H; injection H as <- _ _; apply keeps_refl].
+    destruct (kv_get d k); [|intro H; injection H as <- _ _; apply keeps_refl].
+    destruct (save_direct _ o) as [s1 r1] eqn:ES. apply keeps_save_direct in ES.
+    intro H. injection H as <- _ _. eapply keeps_trans; [apply keeps_set_data | exact ES].
   - destruct (login s o u exclusive) as [[s1 r1] c1] eqn:E. apply keeps_login in E.
     intro H. injection H as <- _ _. exact E.
   - destruct (logout s o) as [s1 r1] eqn:E. apply keeps_logout in E. intro H. injection H as <- _ _. exact E.
